@@ -782,6 +782,16 @@ def limit_cases(rng):
         out.append(("aig", ty, "-", b"aig 1 0 0 0 1\n" + bytes([0x82] + [0x80] * 7 + [0x00]) + b"\x00", "REJECT"))      # 9 bytes, padded 2
         out.append(("aig", ty, "-", b"aig 1 0 0 0 1\n" + bytes([0x82] + [0x80] * 8 + [0x02]) + b"\x00", "REJECT"))      # 10 bytes, 2^64 + 2
         out.append(("aig", ty, "-", b"aig 1 0 0 0 1\n" + bytes([0x82] + [0x80] * 6 + [0x00]) + b"\x00", "H(1,0,0,0,1,0,0,0,0);a:0,0 => ok"))  # 8 bytes, padded 2
+    # a declared group count is enforced also when the clause count is unspecified (0), and vice versa
+    out.append(("gcnf", "i32", "-", b"p gcnf 5 0 2\n{3} 1 0\n", "REJECT"))
+    out.append(("gcnf", "i32", "-", b"p gcnf 5 0 2\n{2} 1 0\n", "H(5,0,2);{2}[1] => ok"))
+    out.append(("gcnf", "i32", "-", b"p gcnf 0 1 2\n{3} 1 0\n", "REJECT"))
+    out.append(("gcnf", "i32", "-", b"p gcnf 0 0 0\n{7} 9 0\n{0} -9 0\n", "H(0,0,0);{7}[9];{0}[-9] => ok"))
+    # a variable count just beyond the widest literal type, followed by a clause (the limit is used when literals are checked)
+    for fmt, pre, extra in (("cnf", "", ""), ("wcnf", "7 ", " 9"), ("gcnf", "{1} ", " 9")):
+        for ty in ("i64", "isize"):
+            out.append((fmt, ty, "-", ("p %s 9223372036854775808 1%s\n%s1 -1 0\n" % (fmt, extra, pre)).encode(), "REJECT"))
+            out.append((fmt, ty, "h", ("p %s 9223372036854775808 1%s\n%s1 -1 0\n" % (fmt, extra, pre)).encode(), "REJECT"))
     # a literal out of range as the first literal of a continuation line of a clause
     for fmt, pre in (("cnf", ""), ("wcnf", "7 "), ("gcnf", "{1} ")):
         extra = "" if fmt == "cnf" else " 9"
@@ -812,6 +822,9 @@ def hostile_cases():
                 out.append((tag, ty, "-", ("%s %d 0 %d %d 0\n1\n" % (tag, min(n, 2 ** 62), min(n, 2 ** 61), n)).encode()))
                 out.append((tag, ty, "w", ("%s %d %d 0 0 0\n" % (tag, min(n, 2 ** 62), min(n, 2 ** 62))).encode()))
                 out.append((tag, ty, "w", ("%s 0 0 0 0 0 0 0 %d\n%d\n" % (tag, n, n)).encode()))
+                out.append((tag, ty, "w", ("%s 1 1 0 0 0 0 0 1\n%s%d\n2\n" % (tag, "2\n" if tag == "aag" else "", n)).encode()))
+                out.append((tag, ty, "w", ("%s 1 1 0 0 0 0 0 2\n%s%d\n1\n2\n" % (tag, "2\n" if tag == "aag" else "", n)).encode()))
+                out.append((tag, ty, "-", ("%s 1 1 0 0 0 0 0 2\n%s%d\n%d\n2\n" % (tag, "2\n" if tag == "aag" else "", n, n)).encode()))
     return out
 
 
@@ -919,7 +932,23 @@ def corruption_cases(rng, n):
     """a well-formed document, one token corrupted; expectation 'ERRAT line col_lo col_hi'"""
     out = []
     while len(out) < n:
-        kind = rng.choice(["cnf", "wcnf", "gcnf", "aag", "btor2", "cnf", "cnf", "aig"])
+        kind = rng.choice(["cnf", "wcnf", "gcnf", "aag", "btor2", "cnf", "cnf", "aig", "log"])
+        if kind == "log":
+            # a value line with several literals, one of them (any position) out of range for the literal type or garbage
+            ty = rng.choice(["i8", "i16", "i32", "i64"])
+            tmax = DIMACS_TYPES[ty]
+            pre = rng.choice(["", "c a comment\n", "s SATISFIABLE\n", "c x\ns UNKNOWN\n"])
+            lines = []
+            for _ in range(rng.choice([1, 2, 3])):
+                lines.append([str(gen_lit(rng, tmax)) for _ in range(rng.choice([1, 2, 4, 7]))])
+            li = rng.randrange(len(lines)); ti = rng.randrange(len(lines[li]))
+            new = rng.choice([str(tmax + 1), str(-tmax - 1), "9" * 25, "x", "1x"])
+            lines[li][ti] = new
+            text = pre + "".join("v " + " ".join(l) + "\n" for l in lines) + "v 0\n"
+            line_no = pre.count("\n") + li + 1
+            col = 3 + sum(len(t) + 1 for t in lines[li][:ti])
+            out.append(("log", ty, "-", text.encode(), "ERRAT %d %d %d" % (line_no, col, col + len(new) - 1 + (1 if new == "1x" else 0))))
+            continue
         if kind in ("cnf", "wcnf", "gcnf"):
             ty = rng.choice(list(DIMACS_TYPES))
             val = gen_dimacs_value(rng, kind, ty, with_header=rng.random() < 0.7)
